@@ -28,7 +28,8 @@ P = {'id': 'C06',
              'the hash function (DefaultHasher) and the f32 max-load computation are function parameters, instantiated per case with tables computed by the harness from the real code; '
              'the link-type capacity check (index > L::MAX, u32 vs u64 links) is not modelled',
              'modelled (M+S): src/containers/specialized/easy_hash_map.rs - put() with the auto-grow rebuild (ZiporaHashMap::with_capacity(max(2*capacity,64)), every iterated entry re-inserted, errors ignored), '
-             'get/remove/contains_key/len/clear/get_or_insert delegating to the inner map; the f64 load-factor test is a function parameter; shrink_to_fit, retain and extend are not modelled',
+             'get/remove/contains_key/len/clear delegating to the inner map; get_or_insert / get_or_insert_with (contains_key, put if absent, get_mut().expect()) and extend / Extend / FromIterator as the loop of their put() calls '
+             '(ModelEasyX.v, theorem easy_ext_refines_map); the f64 load-factor test is a function parameter; shrink_to_fit and retain are not modelled',
              'modelled (M+S): src/containers/specialized/gold_hash_idx.rs - with_capacity, insert (resize check, unbounded probe, allocate_value with free-list pop or push, store_value), resize/resize_to '
              '(re-insertion of every bucket, old value slots not released), get/get_mut, remove (free_value, rehash_after_removal: take out and re-place the following cluster), len; the hash function '
              '(AHasher) is a parameter; insert_batch, get_batch, shrink_to_fit and the memory statistics are not modelled; answers only are compared (the type exposes no layout)',
@@ -67,7 +68,7 @@ P = {'id': 'C06',
                'run by replaying ~1500 histories in Coq (vm_compute) under ten caller-supplied hashers, nine capacities and nine GoldHashMap configurations. Extension: get_fast_is_get / smallmap_u8_refines_map '
                '(SmallMap<u8>::get_fast, the SSE2 key search modelled lane by lane and mask bit by mask bit, returns what get returns in every reachable state; get_fast_unmasked_refuted for the code before 3fcc283), '
                'hashstr_refines_map / hashstr_counters (HashStrMap: the wrapper over a trusted std HashMap answers like a map, len <= unique_keys <= total_inserts); String-keyed and typed cells run the same models on canonical '
-               'key numbers with the real hasher tabulated per case. Only ZiporaHashMap under randomly seeded hashers (the default hasher parameter) is decided by the differential oracle alone (S-only).',
+               'key numbers with the real hasher tabulated per case; easy_ext_refines_map adds EasyHashMap::get_or_insert(_with) and extend to the modelled operations. Only ZiporaHashMap under randomly seeded hashers (the default hasher parameter) is decided by the differential oracle alone (S-only).',
  'level_note': 'Trusted: Coq kernel + vm_compute; the hand-written models and their mirror of the test hashers; harness generators and the BTreeMap oracle. The theorems are about the models; keys/values are '
                'natural numbers, Rust generics (K: Hash+Eq+Clone) are not modelled.',
  'technique': 'Coq refinement proofs (invariant + simulation over all histories, hash function universally quantified): probe-path invariant + pigeonhole for the open-addressing table, chain/relink/compaction '
